@@ -332,6 +332,22 @@ def leaves(term, guards=()):
 
 
 # --------------------------------------------------------------------------- scopes
+_CMP_FLIP = {"<": ">", ">": "<", "<=": ">=", ">=": "<=", "==": "==", "!=": "!="}
+
+
+def _canon_cmp(op, a, b):
+    """One orientation per comparison: a constant operand stands on the right (1 == len(x) is len(x) == 1, 0 < n is n > 0); between two
+    non-constant operands '>' / '>=' are written as '<' / '<='.  (b > a and a < b are the same test: the reading must not depend on it.)"""
+    if op in _CMP_FLIP:
+        ca = head(strip(a)) == "const"
+        cb = head(strip(b)) == "const"
+        if ca and not cb:
+            return ("cmp", _CMP_FLIP[op], b, a)
+        if not ca and not cb and op in (">", ">="):
+            return ("cmp", _CMP_FLIP[op], b, a)
+    return ("cmp", op, a, b)
+
+
 def assigned_names(stmts):
     """Names bound by statements (not descending into nested function / class / lambda / comprehension scopes)."""
     out = []
@@ -542,7 +558,7 @@ class Evaluator:
         parts = []
         for op, r in zip(n.ops, n.comparators):
             right = self.ev(r, env, ctx)
-            parts.append(("cmp", _CMPOPS[type(op)], left, right))
+            parts.append(_canon_cmp(_CMPOPS[type(op)], left, right))
             left = right
         return parts[0] if len(parts) == 1 else ("and", tuple(parts))
 
